@@ -6,7 +6,7 @@ state     real Image / ImageBatch / FlowFields / FlowField whose channels hold t
           (1, x, y[, z]) of each item's OWN world coordinates (flow fields: a world-affine displacement
           field u(x) = A x + b expressed in the field's axes)  +  reference state (RefGrid per item,
           validity mask per item = voxels determined only by valid in-field-of-view source voxels)
-alphabet  ~90 argument forms of the spatial methods (resize ... sample)
+alphabet  ~115 argument forms of the spatial methods (resize ... sample)
 paths     all chains up to the tier depth, pruned by exact-bit dedup of (data, grids, masks)
 invariant in EVERY reached state:
           (i)   one grid per item and grid.shape == data.shape[2:]; result type preserved
@@ -30,7 +30,7 @@ from ref.grid import RefGrid
 
 PROPERTY = "C04"
 RULE = (
-    "every chain of spatial image operations (alphabet of ~90 argument forms; depth 2 quick, depth 3 thorough with a "
+    "every chain of spatial image operations (alphabet of ~115 argument forms; depth 2 quick, depth 3 thorough with a "
     "reduced alphabet at the deeper levels) from every initial container (Image, ImageBatch N=1/2 with per-item grids, "
     "FlowFields/FlowField in world/grid/cube axes) on oriented anisotropic 2-D/3-D grids, executed on the real "
     "objects; distinct = exact bits of (data, grids, validity masks); non-trivial = the operation changed data or "
@@ -52,9 +52,10 @@ ASSUMPTIONS = [
     "vector map of the new grid equals that of the old grid, otherwise counted as undefined",
     "integer sizes from ceil of a float quantity are accepted within a relative perturbation of 1e-5 (knife-edge rule)",
 ]
-MIN_NONTRIVIAL = {"quick": 2000, "thorough": 20000}
-MIN_OUTCOMES = {"quick": 2000, "thorough": 20000}
-MIN_SUB_TRACES = {"chain": 1000}
+# measured: quick 53k chains / 37k outcomes / 21k non-trivial; thorough 464k chains / 328k outcomes / 150k non-trivial
+MIN_NONTRIVIAL = {"quick": 10000, "thorough": 70000}
+MIN_OUTCOMES = {"quick": 18000, "thorough": 160000}
+MIN_SUB_TRACES = {"chain": 25000}
 
 EPS32 = 2.0 ** -23
 CTOL = 64.0
@@ -114,21 +115,23 @@ KINDS_QUICK = ["Batch2", "Image", "Flow2:world", "Batch2", "Flow2:owncube", "Flo
 
 
 def configs(tier: str, seed: int):
-    """quick: every initial grid with one container kind (8 configurations); thorough: 16 grids x all 8 kinds.
-    plan: alphabet levels of the operations after the first one (which always runs over the full alphabet):
-      quick     (1,)            full x medium
-      thorough  (1,)            full x medium                 every configuration
-                (2,)            full x full                   ImageBatch N=2 configurations
-                (0, 0)          full x reduced x reduced      the 8 quick grids, ImageBatch N=2"""
+    """quick: every initial grid with one container kind (8 configurations).
+    thorough: 16 grids x {ImageBatch N=2, one further kind rotating through all kinds} (32 configurations).
+    plans = alphabet levels of the operations after the first one (which always runs over the full alphabet):
+      quick     (1,)     full x medium
+      thorough  (1,)     full x medium                 every configuration
+                (2,)     full x full                   ImageBatch N=2 on the 8 quick grids
+                (0, 0)   full x reduced x reduced      ImageBatch N=2 on 4 grids (2-D 9x6, 16x12, 9x6 perm; 3-D)"""
     out = []
     for i, spec in enumerate(grid_specs(tier, seed)):
-        kq = KINDS_QUICK[i % len(KINDS_QUICK)]
-        kinds = [kq] if tier == "quick" else KINDS_ALL
-        for k in kinds:
-            plans = [[1]]
-            if tier != "quick" and k == "Batch2":
-                plans = [[2]] + ([[0, 0]] if i < 8 else [])
-            out.append({"grid": spec, "kind": k, "seed": seed, "plans": plans})
+        if tier == "quick":
+            out.append({"grid": spec, "kind": KINDS_QUICK[i % len(KINDS_QUICK)], "seed": seed, "plans": [[1]]})
+            continue
+        plans = [[2]] if i < 8 else [[1]]
+        if i in (0, 1, 2, 6):
+            plans = plans + [[0, 0]]
+        out.append({"grid": spec, "kind": "Batch2", "seed": seed, "plans": plans})
+        out.append({"grid": spec, "kind": KINDS_ALL[1 + (i % (len(KINDS_ALL) - 1))], "seed": seed, "plans": [[1]]})
     return out
 
 
@@ -291,6 +294,7 @@ def _alphabet_levels(D: int, cls: str, N: int):
     A(0, "downsample", levels=1, sigma=0)
     A(1, "downsample", levels=2, sigma=0)
     A(2, "downsample", levels=1, mode="nearest")
+    A(2, "downsample", levels=1, mode="nearest", sigma=0)
     A(1, "downsample", levels=1, dims=[0])
     A(1, "downsample", levels=1, dims=[D - 1], sigma=0)
     A(1, "downsample", levels=1, min_size=7)
@@ -453,7 +457,7 @@ def bounds(tier):
         "alphabet_D3_batch2": len(alphabet(3, "ImageBatch", 2)),
         "medium_alphabet": len(medium_alphabet(2, "ImageBatch", 2)),
         "reduced_alphabet": len(reduced_alphabet(2, "ImageBatch", 2)),
-        "chains": "quick: full x medium; thorough: full x medium for all 128 configurations, full x full for the 16 ImageBatch(N=2) configurations, full x reduced x reduced for 8 of them",
+        "chains": "quick: full x medium; thorough: full x medium for all 32 configurations, full x full for ImageBatch(N=2) on 8 grids, full x reduced x reduced for ImageBatch(N=2) on 4 grids",
         "depth_total": 2 if tier == "quick" else 3,
         "max_size_per_axis": MAXN,
     }
@@ -856,7 +860,8 @@ def ref_step(st: St, op):
             if not _sizes_ok(g.n):
                 return None
             if nearest:
-                return {"grid": g, "mask": None, "pos": ("axes", r.n.copy(), g.n.copy(), ac)}
+                # with Gaussian pre/post-smoothing the values are not copies of source voxels: provenance not judged
+                return {"grid": g, "mask": None, "pos": None if sigma else ("axes", r.n.copy(), g.n.copy(), ac)}
             changed = g.n != r.n
             rad = np.zeros(D, int)
             if sigma:
@@ -976,6 +981,8 @@ def ref_step(st: St, op):
             g = rg.pooled(r, kk, ceil)
             if not _sizes_ok(g.n):
                 return None
+            if info.get("observed") == "pool-order" and not _sizes_ok(rg.pooled(r, kk[::-1], ceil).n):
+                return None  # either order of the tuple must stay inside the domain (>= 2 samples per axis)
             mm = m
             for d in range(D):
                 kd, n0 = int(kk[d]), int(r.n[d])
@@ -1421,10 +1428,15 @@ def judge(st: St, op, info, res, depth: int, out: StepResult) -> StepResult:
             M = None
             if st.coef is not None and st.axes != "world" and info["flowmap"] == "sample":
                 M = vector_map(st, it["grid"]) @ np.linalg.inv(vector_map(st, st.grids[it["src"]]))
+            if it["pos"] is None:
+                continue
             for kind, detail in nearest_problems(st.data[it["src"]], data[i], it["pos"], D, M):
                 out.problems.append((kind, f"item {i}: {detail}"))
         if not out.problems:
-            out.undef = "nearest:ramp-not-reproducible(provenance judged)"
+            if any(it["pos"] is None for it in items):
+                out.undef = "nearest+smoothing:values-not-judged"
+            else:
+                out.undef = "nearest:ramp-not-reproducible(provenance judged)"
         new.terminal = True
         new.grids = [it["grid"] for it in items]
         new.masks = [np.zeros(data.shape[2:], dtype=bool) for _ in items]
